@@ -67,6 +67,7 @@ def Pkt.key (p : Pkt) : FlowKey := ⟨p.srcIp, p.dstIp, p.srcPort, p.dstPort⟩
 def FIN : Nat := 1
 def SYN : Nat := 2
 def RST : Nat := 4
+def ACK : Nat := 16
 def hasFlag (flags f : Nat) : Bool := (flags / f) % 2 == 1
 
 /-! ### the flow table -/
@@ -242,6 +243,18 @@ def step {ρ σ} (P : Parsers ρ σ) (m : FlowMap) (p : Pkt) : StepOut ρ σ :=
   | some (flow, isClient) => stepFound P m p flow isClient
   | none => stepNew m p
 
+/-- The SYN reset of `process_tcp_packet`: a SYN without ACK opens a connection; a flow still stored for the
+4-tuple (either direction) that was not opened by this very SYN (a retransmission carries the same sequence
+number) belongs to an earlier connection and is dropped before the packet is dispatched. -/
+def reset (m : FlowMap) (p : Pkt) : FlowMap :=
+  if hasFlag p.flags SYN && !hasFlag p.flags ACK then
+    if (m.get p.key).map (·.clientIsn) == some p.seq then m
+    else (m.erase p.key).erase p.key.rev
+  else m
+
+/-- `process_tcp_packet` with the SYN reset (`step` is the dispatch that follows it) -/
+def stepS {ρ σ} (P : Parsers ρ σ) (m : FlowMap) (p : Pkt) : StepOut ρ σ := step P (reset m p) p
+
 /-- events of one packet -/
 def StepOut.events {ρ σ} (o : StepOut ρ σ) : List (Event ρ σ) :=
   match o.stored with
@@ -255,6 +268,15 @@ def StepOut.events {ρ σ} (o : StepOut ρ σ) : List (Event ρ σ) :=
 def run {ρ σ} (P : Parsers ρ σ) : FlowMap → List Pkt → List (Option ρ × Option σ)
   | _, [] => []
   | m, p :: ps => let o := step P m p; (o.request, o.response) :: run P o.map ps
+
+/-- `run` with the SYN reset before every packet -/
+def runS {ρ σ} (P : Parsers ρ σ) : FlowMap → List Pkt → List (Option ρ × Option σ)
+  | _, [] => []
+  | m, p :: ps => let o := stepS P m p; (o.request, o.response) :: runS P o.map ps
+
+def finalMapS {ρ σ} (P : Parsers ρ σ) : FlowMap → List Pkt → FlowMap
+  | m, [] => m
+  | m, p :: ps => finalMapS P (stepS P m p).map ps
 
 def finalMap {ρ σ} (P : Parsers ρ σ) : FlowMap → List Pkt → FlowMap
   | m, [] => m
